@@ -363,3 +363,11 @@ Definition add_incoming (s : sys) (l : list rin) : sys :=
 (* what a consumer's NextPackage sees of the system *)
 Definition nstate_of (s : sys) (ctx_done : bool) : nstate :=
   mkN (closed s) (pq s) [] (cerr s) 0 ctx_done (conn_done s).
+
+(* a goroutine outside the system that held the read lock (a consumer parked in NextPackage) returns and releases it *)
+Definition release (s : sys) : sys :=
+  mkS (closed s) (pq s) (pcap s) (rd s - 1) (wpend s) (wheld s) (registered s) (cerr s) (ccap s) (conn_done s) (tclosed s) (tfail s)
+      (rp s) (incoming s) (cp s) (kind0 s) (conn_close s) (reply s) (cfail s).
+Definition set_rd (s : sys) (n : Z) : sys :=
+  mkS (closed s) (pq s) (pcap s) n (wpend s) (wheld s) (registered s) (cerr s) (ccap s) (conn_done s) (tclosed s) (tfail s)
+      (rp s) (incoming s) (cp s) (kind0 s) (conn_close s) (reply s) (cfail s).
